@@ -530,7 +530,8 @@ func (r *Run) c03Reset() {
 				continue
 			}
 			path := FindPath(p, PathQuery{Fn: fn, FlagBlind: true,
-				Target: func(in ssa.Instruction) bool { return IsReturn(in) && !isErrReturn(in) },
+				Target:    func(in ssa.Instruction) bool { return IsReturn(in) && !isErrReturn(in) },
+				AvoidEdge: c03ErrEdge,
 				Avoid: func(in ssa.Instruction) bool {
 					if isResetStore(in) {
 						return true
@@ -557,7 +558,8 @@ func (r *Run) c03Reset() {
 		var witness []string
 		if !must[fn] {
 			witness = FindPath(p, PathQuery{Fn: fn, FlagBlind: true,
-				Target: func(in ssa.Instruction) bool { return IsReturn(in) && !isErrReturn(in) },
+				Target:    func(in ssa.Instruction) bool { return IsReturn(in) && !isErrReturn(in) },
+				AvoidEdge: c03ErrEdge,
 				Avoid: func(in ssa.Instruction) bool {
 					if isResetStore(in) {
 						return true
@@ -1023,7 +1025,38 @@ func c03IsErrReturn(in ssa.Instruction) bool {
 	if _, isErr := ev.Type().Underlying().(*types.Interface); !isErr {
 		return false
 	}
-	for _, g := range Guards(ret.Block()) {
+	return c03ErrNonNilAt(ev, ret.Block())
+}
+
+// c03ErrEdge: the edge from -> to carries a non-nil error into the merge of the function's error result (`if err !=
+// nil { result = err; break out }` ... `return result`, the shape a hand-inlined or normalised helper leaves behind):
+// taking it is an error exit just like `return err` under `err != nil`.
+func c03ErrEdge(from, to *ssa.BasicBlock) bool {
+	fn := to.Parent()
+	for _, b := range fn.Blocks {
+		ret, ok := b.Instrs[len(b.Instrs)-1].(*ssa.Return)
+		if !ok || len(ret.Results) == 0 {
+			continue
+		}
+		ph, isPhi := ret.Results[len(ret.Results)-1].(*ssa.Phi)
+		if !isPhi || ph.Block() != to {
+			continue
+		}
+		if _, isErr := ph.Type().Underlying().(*types.Interface); !isErr {
+			continue
+		}
+		for i, pr := range to.Preds {
+			if pr == from && c03ErrNonNilAt(ph.Edges[i], from) {
+				return true
+			}
+		}
+	}
+	return false
+}
+
+// c03ErrNonNilAt: the error value ev is known to be non-nil in block blk.
+func c03ErrNonNilAt(ev ssa.Value, blk *ssa.BasicBlock) bool {
+	for _, g := range Guards(blk) {
 		if b, ok := g.Cond.(*ssa.BinOp); ok && (b.X == ev || b.Y == ev) {
 			if (b.Op == token.NEQ && g.True) || (b.Op == token.EQL && !g.True) {
 				return true
